@@ -145,6 +145,7 @@ class Ctx:
         self.nmodel_hits = 0
         self.model = None
         self.notes = []
+        self.dead_alts = {}      # decision index -> alternatives found infeasible when the decision was taken
 
     # -- path condition -------------------------------------------------------------------
     def assume(self, c, solver=True):
@@ -261,6 +262,20 @@ class Ctx:
                     break
             if k is None:
                 raise PathAbort('infeasible')
+            # alternatives that are infeasible here are pruned now (one solver call) instead of by a
+            # re-execution up to this point; `unknown` keeps the alternative
+            dead = set()
+            for j in range(k + 1, n):
+                o = opts[j]
+                if o is False or (is_z3(o) and z3.is_false(o)):
+                    dead.add(j)
+                elif is_z3(o) and not z3.is_true(o) and not has_quantifier(o):
+                    self.nchecks += 1
+                    if self.solver.check(self.weak(o)) == z3.unsat:
+                        dead.add(j)
+            self.dead_alts.pop(i, None)
+            if dead:
+                self.dead_alts[i] = dead
             self.taken.append((k, n, label))
         self.assume(opts[k])
         return k
@@ -289,22 +304,25 @@ class Ctx:
         return self.counters[key] - 1
 
 
+_HQ = {}      # ast id -> (pinned ast, result); pinning the ast keeps its id from being recycled
+
+
 def has_quantifier(e, memo=None, depth=0):
     if not is_z3(e):
         return False
-    if memo is None:
-        memo = {}
     i = e.get_id()
-    r = memo.get(i)
+    r = _HQ.get(i)
     if r is not None:
-        return r
+        return r[1]
     if z3.is_quantifier(e):
-        r = not e.is_lambda() or has_quantifier(e.body(), memo, depth + 1)
-    elif depth > 60:
-        r = False
+        r = not e.is_lambda() or has_quantifier(e.body(), None, depth + 1)
+    elif depth > 300:
+        return False          # not cached: the answer depends on the depth the term was reached at
     else:
-        r = any(has_quantifier(c, memo, depth + 1) for c in e.children())
-    memo[i] = r
+        r = any(has_quantifier(c, None, depth + 1) for c in e.children())
+    if len(_HQ) > 400000:
+        _HQ.clear()
+    _HQ[i] = (e, r)
     return r
 
 
@@ -1192,6 +1210,7 @@ class Interp:
                     assigned.add(n.id)
         if index_var:
             assigned.add(index_var)
+        assigned |= set(spec.get('locals', ()))      # locals mutated through closures of the function
         mods = list(spec.get('modifies', ()))
         objs = []
         if not mods:
@@ -1742,9 +1761,17 @@ class Interp:
         invariants call `res`"""
         if kind != 'list':
             raise Unsupported('symbolic dict comprehension')
+        g = e.generators[0]
+        rng_ = self.as_range(it)
+        if spec is None and rng_ is not None and rng_[2] == 1 and not g.ifs and isinstance(e.elt, ast.Constant) \
+                and isinstance(e.elt.value, (str, bytes)):
+            # [const for _ in range(n)]: a list of max(0, hi - lo) items (their values are not stated)
+            z = ZList('val' if isinstance(e.elt.value, str) else 'bytes')
+            d_ = zint(rng_[1]) - zint(rng_[0])
+            self.ctx.define(zint(z.ln) == z3.If(d_ > 0, d_, 0))
+            return z
         if spec is None:
             raise Unsupported(f'loop {key}#{k}: symbolic trip count and no invariant in the sidecar')
-        g = e.generators[0]
         name = f'__comp{k}'
         scope = Env({}, env)
         keep = spec.get('elem', 'bytes') != 'none'
